@@ -147,7 +147,8 @@ impl RtpHeader {
                     }
                     offset += len;
                 }
-            } else if ext.profile == 0x1000 {
+            } else if ext.profile & 0xFFF0 == 0x1000 {
+                // RFC 8285 4.3: 0x100 in the upper 12 bits, the low 4 are "appbits"
                 let mut offset = 0;
                 while offset < ext.data.len() {
                     let ext_id = ext.data[offset];
